@@ -28,7 +28,9 @@
 (***************************************************************************)
 EXTENDS Naturals, Sequences, FiniteSets, TLC, Json
 
-CONSTANTS MaxCells,      \* cells of the swept value column
+CONSTANTS AsWritten,     \* FALSE: the typed path as repaired by arc commit 237ecc3 (default);
+                         \* TRUE: as first written (Decoder.Skip on ignored values) -- negative control
+          MaxCells,      \* cells of the swept value column
           MaxTimeCells,  \* cells of the swept time column
           Emit
 
@@ -169,6 +171,13 @@ TypedValType(c) ==
     ELSE "fallback"
 TypedTimeUnit(c) == IF All(c, TNum) THEN UnitOf(c[1]) ELSE "fallback"
 
+SkipsUndecodable(p) == p.extra = "opaque_bad" \/ \E k \in 1..Len(p.cols) : p.cols[k].shape = "nonarray_bad"
+\* ... and a non-array column value is skipped BEFORE the duplicate-key check, so an earlier array
+\* column of the same name survives in the typed path while the generic map decode lets the later
+\* (non-array, then dropped) value win
+SkipsDuplicate(p) == \E a, b \in 1..Len(p.cols) : a < b /\ p.cols[a].name = p.cols[b].name
+                        /\ p.cols[a].shape = "cells" /\ p.cols[b].shape \in {"nonarray_ok", "nonarray_bad"}
+
 Typed(p) ==
     LET arrs == {k \in 1..Len(p.cols) : p.cols[k].shape \in {"cells", "empty"}}
         cs   == {p.cols[k] : k \in arrs}
@@ -178,6 +187,9 @@ Typed(p) ==
         vcs  == {c \in cs : c.name # "time"}
     IN
     IF p.top # "map" THEN Fallback                       \* not a map / row format has no columns / empty map
+    \* since 237ecc3 ignored values are decoded (DecodeInterface), not skipped: an undecodable one
+    \* falls back, and so does a non-array value that repeats the key of an earlier array column
+    ELSE IF ~AsWritten /\ (SkipsUndecodable(p) \/ SkipsDuplicate(p)) THEN Fallback
     ELSE IF p.extra = "intkey" THEN Fallback             \* non-string key
     ELSE IF p.dup # "none" /\ ~(p.dup = "m" /\ p.m = "absent") THEN Fallback   \* duplicate m/columns, any batch key
     ELSE IF EffM(p) \in {"float", "nil", "absent", "bin"} THEN Fallback
@@ -192,13 +204,7 @@ Typed(p) ==
                           nulls |-> {}]}]
 
 \* values the typed path passes over with Decoder.Skip() while the generic path must decode them
-SkipsUndecodable(p) == p.extra = "opaque_bad" \/ \E k \in 1..Len(p.cols) : p.cols[k].shape = "nonarray_bad"
-\* ... and a non-array column value is skipped BEFORE the duplicate-key check, so an earlier array
-\* column of the same name survives in the typed path while the generic map decode lets the later
-\* (non-array, then dropped) value win
-SkipsDuplicate(p) == \E a, b \in 1..Len(p.cols) : a < b /\ p.cols[a].name = p.cols[b].name
-                        /\ p.cols[a].shape = "cells" /\ p.cols[b].shape \in {"nonarray_ok", "nonarray_bad"}
-KnownDivergent(p) == SkipsUndecodable(p) \/ SkipsDuplicate(p)
+KnownDivergent(p) == AsWritten /\ (SkipsUndecodable(p) \/ SkipsDuplicate(p))
 
 -----------------------------------------------------------------------------
 VARIABLES p, pc, typed, generic
@@ -220,6 +226,9 @@ Equivalent == (pc = "done" /\ typed # Fallback /\ ~KnownDivergent(p)) => typed =
 DivergenceShape == (pc = "done" /\ typed # Fallback /\ KnownDivergent(p)) =>
                        /\ typed.acc = "yes" /\ typed # generic
                        /\ SkipsUndecodable(p) => generic.acc = "no"
+
+\* negative control (MC_aswritten.cfg, AsWritten = TRUE): TLC must find the divergence
+EquivalentStrict == (pc = "done" /\ typed # Fallback) => typed = generic
 
 EmitInv ==
     (Emit /\ pc = "done") =>
